@@ -21,7 +21,7 @@ def run(tier, replay):
         sums = vlib.run_shards(chk, cmds, timeout=1800)
         # uninitialised-read monitor: a small subset under valgrind memcheck on the unsanitized flavor
         vg_cases = 40 if tier == "quick" else 400
-        pbin = vlib.build_harness("fileinfo_mon", "plain", ["fileinfo_mon.cpp"], libs=["llbuildBasic", "llvmSupport"])
+        pbin = vlib.strip_debug(vlib.build_harness("fileinfo_mon", "plain", ["fileinfo_mon.cpp"], libs=["llbuildBasic", "llvmSupport"]))
         vcmd = ["valgrind", "--quiet", "--error-exitcode=97", "--track-origins=no", "--exit-on-first-error=no",
                 pbin, "--seed", str(chk.seed), "--cases", str(vg_cases), "--dir", os.path.join(sd, "vg")]
         rc, out, err, to = vlib.run_child(vcmd, 1800)
@@ -37,7 +37,10 @@ def run(tier, replay):
             chk.violation("memcheck: uninitialised or invalid read while observing files @ " + " < ".join(t.split(" (")[0] for t in top),
                           {"cmd": " ".join(vcmd), "stderr": e[:6000]})
         else:
-            for r in vlib.parse_jsonl(out):
+            vrecs = vlib.parse_jsonl(out)
+            if not any("summary" in r for r in vrecs):
+                chk.inconclusive.append("valgrind run produced no summary: " + err.decode("utf-8", "replace")[-300:])
+            for r in vrecs:
                 if "viol" in r:
                     chk.violation(r["viol"], r.get("witness"))
         chk.add(vlib.sum_key(sums, "judged"), max(s.get("distinct_classes", 0) for s in sums) if sums else 0)
